@@ -484,6 +484,7 @@ CLAIMS = {
          "calls regenerated from go/runtime.rs), goQuote_json_safe_partial (what the helper used to be, %q, is JSON exactly on a decidable set of runes; \\a \\v "
          "\\xNN \\UNNNNNNNN are not, as examples), toString_shape (the generated part list equals the intercalate rendering Name { f: v } / Enum::Variant(v)), "
          "generated_code_computes (the generated method bodies, as the AST the derive appends, evaluate to toJson / toString under the arm's bindings), "
+         "derive_attrs_union / _perm / _skip / _dup (an item derives a trait iff some attribute is a derive listing it: stacking, order, repetition, unknown targets and other attributes are irrelevant; derivesTrait mirrors find_derive_attr / parse_derive_targets and expandImpls is tied to what derive::expand appends), "
          "derive_total (for every definition the generated bodies are well-scoped: binders pairwise distinct, every variable bound, no helper of the regenerated "
          "dispatch tables shadowed by a binder or by self). Tied to the Rust three ways on every run: (1) translator - Gen/Derive.lean (primitive_to_string_fn, "
          "call_to_json arms, binder prefix, json_escape_string replacement table) with shape assertions on every literal piece of the four body builders; "
